@@ -151,6 +151,7 @@ def _worker_inner(cid, tier, seed, widx, rnd, excluded, examples):
         pass
 
     strat = mod.strategy(tier)
+    shrink_budget = getattr(mod, "SHRINK_BUDGET", 400)
 
     @hypothesis.seed(derive_seed(seed, cid, widx, rnd))
     @settings(
@@ -165,6 +166,11 @@ def _worker_inner(cid, tier, seed, widx, rnd, excluded, examples):
     )
     @given(strat)
     def prop(case):
+        if last_fail:
+            # bounded shrinking: compile-bound checks cannot afford hundreds of shrink attempts
+            last_fail["shrinks"] = last_fail.get("shrinks", 0) + 1
+            if last_fail["shrinks"] > shrink_budget:
+                return
         out, known, jcase = judge(mod, case, open_findings)
         if out.ok or known:
             stats.add(case, out, known)
@@ -174,14 +180,19 @@ def _worker_inner(cid, tier, seed, widx, rnd, excluded, examples):
             stats.evals += 1
             return
         stats.evals += 1
-        last_fail["case"] = jcase
-        last_fail["out"] = out
+        size = len(canon(jcase))
+        if "case" not in last_fail or size <= last_fail["size"]:
+            last_fail["case"] = jcase
+            last_fail["out"] = out
+            last_fail["size"] = size
         raise _Violation(out.sig)
 
     failure = None
     try:
         prop()
-    except _Violation:
+    except BaseException as e:  # _Violation, or hypothesis' Flaky wrapper when the shrink budget cut in
+        if "case" not in last_fail or isinstance(e, (KeyboardInterrupt, SystemExit)):
+            raise
         out = last_fail["out"]
         failure = {
             "case": last_fail["case"],
